@@ -82,9 +82,23 @@ inline void unchanged(const vec_t<T, N, A> &v, const T *p, const char *what)
       PBT_ASSERT_MSG(same(a.padding_, p[14]), "padding written");                                    \
   }                                                                                                  \
   template <class T, class S>                                                                        \
-  void NAME##_asg_vs(const T *p, int, pbt::Ctx &)                                                    \
+  void NAME##_asg_vs(const T *p, int mode, pbt::Ctx &ctx)                                            \
   {                                                                                                  \
     auto a = mk<T, S>(p, p[14]);                                                                     \
+    if (mode % 3 == 2) {                                                                             \
+      /* the scalar is one of the vector's own components, passed by reference: v /= v[k] */         \
+      const int k = (mode / 3) % S::N;                                                               \
+      auto &ret2 = (a OP## = a[k]);                                                                  \
+      PBT_ASSERT_MSG((const void *)&ret2 == (const void *)&a, "compound assignment must return its left operand"); \
+      T e2[4];                                                                                       \
+      for (int i = 0; i < S::N; ++i) {                                                               \
+        e2[i] = p[i];                                                                                \
+        e2[i] OP## = p[k];                                                                           \
+      }                                                                                              \
+      ctx.label("asg_vs: scalar aliases own component");                                             \
+      chk_vec(e2, a, #NAME ".asg_vs(v op= v[k])");                                                   \
+      return;                                                                                        \
+    }                                                                                                \
     const T s = p[12];                                                                               \
     auto &ret = (a OP## = s);                                                                        \
     PBT_ASSERT_MSG((const void *)&ret == (const void *)&a, "compound assignment must return its left operand"); \
